@@ -47,6 +47,13 @@ def generate(tier, rng):
         if n % 7 == 0:
             out.append("DP %s" % hexs(b"\x5f" + head(2, n) + bs + b"\x41\x00\xff"))
             out.append("DP %s" % hexs(b"\xa1\x01" + head(3, n) + b"a" * n))
+    # deep nesting: the display machine keeps its own stack; no depth limit is documented
+    for k in (1000, 4095, 4096, 4097, 5000):
+        out.append("DP %s" % hexs(b"\x81" * k + b"\x00"))
+        out.append("DP %s" % hexs(b"\x9f" * k + b"\xff" * k))
+        out.append("DP %s" % hexs(b"\xa1\x00" * k + b"\x00"))
+        out.append("DP %s" % hexs(b"\xc1" * k + b"\x00"))
+        out.append("DP %s" % hexs(b"\x82\x00" * (k // 2) + b"\x00"))
     # strings whose content looks like notation
     for s in ['"', '""_', '"_', "'_", "''_", '_', "1e0", "h'00'", ", ", " !!! decoding error: x", "(_ ", "NaN", "-inf", "1.5e-7", "simple(1)", "<f32:1>", "%41"]:
         b = s.encode()
